@@ -20,7 +20,9 @@ RULE = ("per world: a reference run (--threads 1) and V variants drawn from thre
         "seeded delay plans on open/read/stat/readdir (0.1-2 ms, different calls delayed in every variant) x repetition; "
         "the report body (all non-header lines) must be byte-identical. Plus 4 variants changing hash function, "
         "prefix/suffix sizes, device kind, cache: equal partition. Every run must exit within 60 s. non-trivial = body has "
-        ">= 2 groups or a group with >= 3 paths; distinct = distinct (world, variant) trace signatures")
+        ">= 2 groups or a group with >= 3 paths; distinct = distinct (world, variant) trace signatures. Every 5th case adds an "
+        "open-file budget run (C19 in situ): RLIMIT_NOFILE=80, 200 hashing threads, delayed reads over 160 same-size files; the "
+        "seam must never see more than 75 scanned files open at once")
 ASSUMPTIONS = ["thread interleavings are steered by seeded delays, not enumerated (engine B2 controls them for the rehash pipeline)",
                "with --isolate the order of the roots is part of the input (the property says roots stay in the order given)",
                "--isolate is not combined with --stdin (fclones rejects the combination up front: the roots must be known before the scan)"]
@@ -157,13 +159,39 @@ def run_case(case):
                         c2["hash_fn"], c2["kind"], c2["knobs"], c2["max_prefix_size"], c2["max_suffix_size"], c2["cache"],
                         [[b2s(ops.relw(rd, p)) for p in g] for g in refpart if g not in part][:3],
                         [[b2s(ops.relw(rd, p)) for p in g] for g in part if g not in refpart][:3]))
+        budget_probe = None
+        if case["i"] % 5 == 0:
+            # open-file budget (C19 in situ): RLIMIT_NOFILE=80 -> budget max(80-5, 64) = 75 permits; 160
+            # same-size files, 200 hashing threads, every read delayed so that tasks hold their files
+            aux = os.path.join(rd.world, "budget")
+            os.makedirs(aux)
+            for k in range(160):
+                with open(os.path.join(aux, "f%03d" % k), "wb") as f:
+                    f.write(b"%03d" % (k % 40) + b"x" * 297)
+            plan = [rule(kind="read", act="delay:3000", prefix=aux, count="inf")]
+            res = ops.group(rd, [aux], ["--threads", "200", "--hash-fn", cfg["hash_fn"]], env=env, plan=plan, seed=3, nofile=80)
+            inv += 1
+            budget_probe = res.trace.maxfd
+            if res.timed_out:
+                V("terminates", "run with RLIMIT_NOFILE=80 and 200 threads did not terminate")
+            elif res.rc != 0:
+                V("budget-run-succeeds", "run with RLIMIT_NOFILE=80 and 200 threads failed: %s" % res.err.decode("utf-8", "replace")[-300:])
+            else:
+                if res.trace.maxfd > 75:
+                    V("open-file-budget", "%d scanned files were open at once with a budget of 75 (RLIMIT_NOFILE=80)" % res.trace.maxfd)
+                if b"Too many open files" in res.err:
+                    V("open-file-budget", "EMFILE reported: %s" % res.err.decode("utf-8", "replace")[-300:])
+                rep = report.parse_text(res.out)
+                if len(rep.groups) != 40 or any(len(g.paths) != 4 for g in rep.groups):
+                    V("budget-run-complete", "expected 40 groups of 4 files, got %d groups" % len(rep.groups))
         verdict = ",".join(sorted({v["clause"] for v in viol}))
         return {
             "violations": viol,
             "nontrivial": nontrivial,
             "sig": ops.trace_sig(rd, traces[:1], verdict + repr([v["threads"] for v in case["variants"]])),
             "faults": ops.fault_counts(traces),
-            "probes": {"variants_run": inv - 1, "max_open_inworld_fds": max(t.maxfd for t in traces)},
+            "probes": {"variants_run": inv - 1, "max_open_inworld_fds": max(t.maxfd for t in traces),
+                       **({"open_file_budget_runs": 1, "open_file_budget_runs_that_reached_the_limit_of_75": int(budget_probe == 75)} if budget_probe is not None else {})},
             "sim_ns": 0,
             "invocations": inv,
             "info": {"roots": case["roots"], "gflags": case["gflags"], "variants": len(case["variants"]), "ref_rc": ref.rc},
